@@ -62,6 +62,14 @@ CHECKS = {
             "Exploration: the flat evaluator runs over a value type that counts clones per variable identity and flags default placeholders; every operand reaching an operator is inspected. eval_vec/eval_iter are compared with eval and with the reference tree on ~10^5 (quick) random expressions with arbitrary repetition patterns.",
             "Trusted: Tok's Clone/Default instrumentation; nothing demanded about clone counts of repeated variables.",
             "DESIGN.md 3/C15"),
+    "C16": ("runtime monitor: exhaustive operator x special-operand catalogue against a reference interpreter of the documented rules; expression-level differential against the operator functions applied along the reference tree",
+            "Fault-style enumeration + exploration: every operator of both shipped instantiations of the value table x every catalogue value / ordered pair (about 2*10^5 applications) plus random operands is compared with a reference interpreter that asserts only what the documentation promises; random value-typed expressions through parse_val are compared with the reference-tree evaluation.",
+            "Trusted: valmodel.rs (documented rules only; undocumented pairs are NoClaim); the sign of a zero from min/max is unspecified in Rust and compared with ==.",
+            "DESIGN.md 3/C16"),
+    "C17": ("runtime monitor: operator x special-operand catalogue under catch_unwind in two build profiles (release, overflow-checks+debug-assertions), the same operands through parse-time folding",
+            "Fault-style enumeration: totality (no panic) and error values in the situations the statement names, observed in a release build (wrapping would show as a non-error result) and in a build where integer overflow traps; catalogue values are also written as literal expressions so that folding inside parse_val executes every operator at parse time.",
+            "Trusted: valmodel.rs for where an error value is promised; catch_unwind (an abort would kill the process and is reported by ./check as a crash).",
+            "DESIGN.md 3/C17"),
 }
 
 PENDING = "monitor designed in DESIGN.md section 3 but not built/validated yet in this tree; not claimed until it is silent on the unchanged tree and catches seeded breaks"
@@ -88,7 +96,7 @@ def main():
         })
     manifest = {
         "version": 1,
-        "setup_cmd": "cd /verif/harness && CARGO_NET_OFFLINE=true cargo build --release --offline",
+        "setup_cmd": "cd /verif/harness && CARGO_NET_OFFLINE=true cargo build --release --offline && CARGO_NET_OFFLINE=true cargo build --profile checked --offline",
         "hooks": {
             "guard": "cargo feature `verif` of exmex (off by default)",
             "enable": "the harness depends on exmex by path=/repo with features partial,value,serde,verif; every ./check rebuilds it from /repo's working tree",
